@@ -12,7 +12,7 @@ import (
 
 // PlanC15 measures one context-taking operation in isolation.
 type PlanC15 struct {
-	Op        string `json:"op"`        // xsend, xrecv, accept, chsend, process, estab-client, estab-server, finish, tlsup
+	Op        string `json:"op"`        // xsend, xrecv, accept, chsend, process, estab-client, estab-server, finish, tlsup, srvfinish
 	Transport string `json:"transport"` // tcp, tcptls, ws, wss, inproc
 	Cancel    bool   `json:"cancel"`    // cancellation instead of a deadline
 	EndMs     int    `json:"end_ms"`    // when the context ends, from the start of the operation
@@ -22,7 +22,7 @@ type PlanC15 struct {
 	FarMs     int    `json:"far_ms"`    // with Cancel: the cancelled context also carries a deadline this far beyond its cancellation (0 = none)
 }
 
-var c15Ops = []string{"xsend", "xrecv", "accept", "chsend", "process", "estab-client", "estab-server", "finish", "tlsup"}
+var c15Ops = []string{"xsend", "xrecv", "accept", "chsend", "process", "estab-client", "estab-server", "finish", "tlsup", "srvfinish"}
 
 func genC15(t *simrt.Tape, tier string) interface{} {
 	p := &PlanC15{}
@@ -309,7 +309,7 @@ func runC15(w *World, pi interface{}) {
 				return tr.Send(ctx, bigMessage("measured", size))
 			})
 		}
-	case "chsend", "process", "finish":
+	case "chsend", "process", "finish", "srvfinish":
 		w.Net.OnLink = capFault
 		f, err := StartFull(w, conf, 7510, nil)
 		if err != nil {
@@ -337,6 +337,60 @@ func runC15(w *World, pi interface{}) {
 		}
 		defer ch.Close()
 		switch p.Op {
+		case "srvfinish":
+			// the server ends the session of a client that does not consume anything: the client's
+			// streams fill, its receiver stops reading, the server's writes back up
+			si := f.Sess[ses.ID]
+			if si == nil || si.Ch == nil {
+				w.Count("no-server-channel")
+				return
+			}
+			sch := si.Ch
+			if p.PeerMode >= 1 && (p.Cap > 0 || p.Transport == "inproc") && p.Transport != "wss" {
+				for i := 0; i < 16; i++ {
+					fctx, fcancel := context.WithTimeout(context.Background(), 200*time.Millisecond)
+					err := sch.SendMessage(fctx, bigMessage(fmt.Sprintf("fill%d", i), 3000))
+					fcancel()
+					if err != nil {
+						break
+					}
+				}
+			}
+			if !sch.Established() {
+				w.Count("channel-died-while-filling")
+				return
+			}
+			if p.Stage%2 == 1 {
+				// first a command that is given up while a response bearing its id comes in
+				w.Count("finish-after-aborted-command")
+				go func() {
+					time.Sleep(50 * time.Millisecond)
+					resp := &lime.ResponseCommand{}
+					resp.ID = "aborted"
+					resp.Method = lime.CommandMethodGet
+					resp.Status = lime.CommandStatusSuccess
+					rctx, rcancel := context.WithTimeout(context.Background(), 5*time.Second)
+					ch.SendResponseCommand(rctx, resp)
+					rcancel()
+				}()
+				cmd := &lime.RequestCommand{}
+				cmd.ID = "aborted"
+				cmd.Method = lime.CommandMethodGet
+				cmd.SetURIString("/nothing")
+				actx, acancel := context.WithTimeout(context.Background(), 300*time.Millisecond)
+				w.Bounded("the aborted ProcessCommand", time.Minute, func() { sch.ProcessCommand(actx, cmd) })
+				acancel()
+			}
+			what := "ServerChannel.FinishSession"
+			if p.Stage >= 2 {
+				what = "ServerChannel.FailSession"
+			}
+			measure(w, p, what, func(ctx context.Context) error {
+				if p.Stage >= 2 {
+					return sch.FailSession(ctx, &lime.Reason{Code: 9, Description: "over"})
+				}
+				return sch.FinishSession(ctx)
+			})
 		case "process":
 			measure(w, p, "ProcessCommand", func(ctx context.Context) error {
 				cmd := &lime.RequestCommand{}
@@ -351,6 +405,38 @@ func runC15(w *World, pi interface{}) {
 			sctx, scancel := context.WithTimeout(context.Background(), time.Second)
 			ch.SendMessage(sctx, bigMessage("wedge", 10))
 			scancel()
+			if p.Stage%2 == 1 {
+				// first a command that is given up: its request is stuck behind the peer that does not
+				// read (when the buffers are bounded) while a response bearing its id comes in
+				w.Count("finish-after-aborted-command")
+				for i := 0; i < 12 && (p.Cap > 0 || p.Transport == "inproc") && p.Transport != "wss"; i++ {
+					fctx, fcancel := context.WithTimeout(context.Background(), 200*time.Millisecond)
+					err := ch.SendMessage(fctx, bigMessage(fmt.Sprintf("fill%d", i), 3000))
+					fcancel()
+					if err != nil {
+						break
+					}
+				}
+				if si := f.Sess[ses.ID]; si != nil && ch.Established() {
+					go func() {
+						time.Sleep(50 * time.Millisecond)
+						resp := &lime.ResponseCommand{}
+						resp.ID = "aborted"
+						resp.Method = lime.CommandMethodGet
+						resp.Status = lime.CommandStatusSuccess
+						rctx, rcancel := context.WithTimeout(context.Background(), 5*time.Second)
+						si.Ch.SendResponseCommand(rctx, resp)
+						rcancel()
+					}()
+					cmd := &lime.RequestCommand{}
+					cmd.ID = "aborted"
+					cmd.Method = lime.CommandMethodGet
+					cmd.SetURIString("/nothing")
+					actx, acancel := context.WithTimeout(context.Background(), 300*time.Millisecond)
+					w.Bounded("the aborted ProcessCommand", time.Minute, func() { ch.ProcessCommand(actx, cmd) })
+					acancel()
+				}
+			}
 			measure(w, p, "ClientChannel.FinishSession", func(ctx context.Context) error {
 				_, err := ch.FinishSession(ctx)
 				return err
@@ -499,7 +585,7 @@ func init() {
 		Gen:    genC15,
 		Run:    runC15,
 		MaxSim: 2 * time.Hour,
-		Rule: "plans = one context-taking operation per run: {Transport.Send, Transport.Receive, SetEncryption(TLS), Accept, channel SendMessage, ProcessCommand, client EstablishSession at 4 handshake stages, server EstablishSession at 4 stages, client FinishSession} " +
+		Rule: "plans = one context-taking operation per run: {Transport.Send, Transport.Receive, SetEncryption(TLS), Accept, channel SendMessage, ProcessCommand, client EstablishSession at 4 handshake stages, server EstablishSession at 4 stages, client FinishSession, server FinishSession/FailSession towards a client that consumes nothing (optionally after a command that was given up while a response bearing its id came in)} " +
 			"x transport {tcp, tcp+tls, ws, wss, in-process} x peer {silent, not reading with full buffers of several sizes} x {deadline, cancellation} x context end in {0,1,50,900,4990,5010,7300,12000,31000} ms; " +
 			"latency is measured on the simulated clock (code runs in zero simulated time); non-trivial = the operation was started; distinct = distinct (plan JSON, event-log hash)",
 	})
